@@ -47,8 +47,13 @@ Fixpoint run_trace (c : config) (i : inst) (tr : list (event * obs)) (idx : Z) :
       let i' := step c (clear_out i) e in
       if obs_matches i' x then (if o_err x then -1 else run_trace c i' rest (idx + 1)) else idx
   end.
+(* the committee the implementation ran with is a power table: non-negative scaled powers, ScaledTotal their sum, < 2^62
+   (the hypothesis committee_wf of the no-panic theorems, checked on every trace) *)
+Definition cfg_wfb (c : config) : bool :=
+  forallb (fun p => 0 <=? p) (c_powers c) && (c_total c =? fold_right Z.add 0 (c_powers c)) &&
+  (0 <? c_total c) && (c_total c <? 4611686018427387904).
 Definition trace_ok (c : config) (input : chain) (tr : list (event * obs)) : bool :=
-  run_trace c (new_instance input 0) tr 0 =? -1.
+  cfg_wfb c && (run_trace c (new_instance input 0) tr 0 =? -1).
 
 (* debugging aid: index of the first differing event together with what the model produced there *)
 Fixpoint run_trace_dbg (c : config) (i : inst) (tr : list (event * obs)) (idx : Z)
